@@ -281,7 +281,7 @@ def assigned(stmts):
                     if isinstance(el, ast.Name):
                         add(el.id)
             if isinstance(n, ast.Call) and isinstance(n.func, ast.Attribute) and n.func.attr in (
-                    "pop", "append", "extend", "write", "seek", "read", "discard_start", "discard_end", "add_row", "add", "insert"):
+                    "pop", "append", "extend", "write", "seek", "read", "discard_start", "discard_end", "add_row", "add", "insert", "truncate"):
                 r = root_of(n.func.value)
                 if r:
                     add(r)
@@ -300,6 +300,7 @@ class Kernel:
         self.roots = []             # mutable roots returned with the value: [(python name, type)]
         self.ret_ty = None          # type of the returned value ("unit" if none)
         self.aliases = {}           # local name -> root name (e.g. out -> self.out sink)
+        self.cur_binds = None       # the bind list of the statement being translated (for coercions that need a bind)
         self.let_log = []           # every name bound by a generated `let` (safety net for loop states / joins, see check_carried)
 
     def fresh(self, base="t"):
@@ -323,6 +324,8 @@ class Kernel:
             return f"(some {term})"
         if frm == "emptylist" and isinstance(to, tuple) and to[0] in ("list", "set", "dict"):
             return "[]"
+        if frm == "emptylist" and isinstance(to, tuple) and to[0] == "opt" and isinstance(to[1], tuple) and to[1][0] in ("list", "set", "dict"):
+            return "(some [])"
         if frm == "nat" and to == "int":
             return f"(Int.ofNat {term})"
         if isinstance(frm, tuple) and frm[0] == "set" and to == L(frm[1]):
@@ -436,6 +439,8 @@ class Kernel:
                     if x is None:
                         return "none"
                     t, ty = self.expr(x, env, binds)
+                    if ty == O("int"):
+                        return t                  # a None bound is an absent bound
                     if ty != "int":
                         raise Unsupported("slice bound")
                     return f"(some {t})"
@@ -469,6 +474,10 @@ class Kernel:
                 nm = self.fresh()
                 binds.append((nm, f"(pyGet {b} {i})", tb[1]))
                 return nm, tb[1]
+            if tb == "bytes":
+                nm = self.fresh()
+                binds.append((nm, f"((pyGet {b} {i}).map Int.ofNat)", "int"))     # indexing bytes gives an int
+                return nm, "int"
             raise Unsupported(f"subscript of {tb}")
         if isinstance(e, ast.Tuple) or isinstance(e, ast.List):
             # literal of homogeneous elements (a tuple used as a lookup table, a list of columns), `*x` splices a list
@@ -518,6 +527,12 @@ class Kernel:
         if isinstance(e, ast.BinOp):
             a, ta = self.expr(e.left, env, binds)
             b, tb = self.expr(e.right, env, binds)
+            if ta == O("int") and tb in ("int", O("int")) or tb == O("int") and ta == "int":
+                # arithmetic on a value that may be None: TypeError
+                if ta == O("int"):
+                    nm = self.fresh(); binds.append((nm, f"(PyRt.needInt {a})", "int")); a, ta = nm, "int"
+                if tb == O("int"):
+                    nm = self.fresh(); binds.append((nm, f"(PyRt.needInt {b})", "int")); b, tb = nm, "int"
             if ta == "int" and tb == "int":
                 op = {ast.Add: "+", ast.Sub: "-", ast.Mult: "*"}.get(type(e.op))
                 if op:
@@ -544,6 +559,8 @@ class Kernel:
                 return self.expr(ast.Compare(left=e.operand.left, ops=[flip()], comparators=e.operand.comparators), env, binds)
         if isinstance(e, ast.UnaryOp):
             a, ta = self.expr(e.operand, env, binds)
+            if isinstance(e.op, ast.USub) and ta == O("int"):
+                nm = self.fresh(); binds.append((nm, f"(PyRt.needInt {a})", "int")); a, ta = nm, "int"
             if isinstance(e.op, ast.USub) and ta == "int":
                 return f"(-{a})", "int"
             if isinstance(e.op, ast.Not):
@@ -585,6 +602,10 @@ class Kernel:
                         raise Unsupported("comparison operator")
                     if ltt == "nat" and rtt == "int":
                         lt, ltt = f"(Int.ofNat {lt})", "int"
+                    if sym not in ("=", "≠") and ltt == O("int"):
+                        nm = self.fresh(); binds.append((nm, f"(PyRt.needInt {lt})", "int")); lt, ltt = nm, "int"
+                    if sym not in ("=", "≠") and rtt == O("int"):
+                        nm = self.fresh(); binds.append((nm, f"(PyRt.needInt {rt})", "int")); rt, rtt = nm, "int"
                     if sym in ("=", "≠") and rtt == O(ltt):
                         lt, ltt = f"(some {lt})", rtt           # a value compared with a value-or-None
                     elif sym in ("=", "≠") and ltt == O(rtt):
@@ -730,6 +751,12 @@ class Kernel:
             nm = self.fresh("ip")
             binds.append((nm, f"(BuildAssembly_input_predecessor {self.coerce(a, ta, 'scaffold')} {self.coerce(b, tb, 'int')})", O(("tuple", ["row", L("row")]))))
             return nm, O(("tuple", ["row", L("row")]))
+        if dotted(f) == "re.finditer" and len(e.args) == 2 and isinstance(e.args[0], ast.Constant) and e.args[0].value == b"[ACGTacgt]+":
+            # the ACGT runs of a bytes value (the model's `acgtRuns`; the pattern text is guarded by T1)
+            t, ty = self.expr(e.args[1], env, binds)
+            if ty != "bytes":
+                raise Unsupported("finditer on a non-bytes value")
+            return f"(acgtRuns 0 none {t})", L(("tuple", ["nat", "nat"]))
         if dotted(f) in ("re.match", "re.fullmatch", "re.search") and len(e.args) == 2 and not e.keywords and isinstance(e.args[0], ast.Constant) and isinstance(e.args[0].value, str):
             pat = e.args[0].value
             if pat not in REGEX or REGEX[pat][2] != dotted(f)[3:]:
@@ -881,6 +908,42 @@ class Kernel:
                 t, ty = self.expr(e.args[0], env, binds)
                 if ty == L("int"):
                     return f"(PyRt.sum {t})", "int"
+            if n == "BytesIO" and not e.args:
+                return "({ data := [], pos := 0 } : PyRt.BytesIO)", "bytesio"
+            if n == "FastaInfo" and len(e.args) == 4:
+                xs = []
+                for a in e.args:
+                    t, ty = self.expr(a, env, binds)
+                    if ty == O("int"):
+                        nm = self.fresh(); binds.append((nm, f"(PyRt.needInt {t})", "int")); t, ty = nm, "int"
+                    if ty != "int":
+                        raise Unsupported("FastaInfo(...) argument")
+                    xs.append(t)
+                return f"({{ length := {xs[0]}, fileOffset := {xs[1]}, rpl := {xs[2]}, mll := {xs[3]} }} : FastaInfo)", "fastainfo"
+            if n == "Gap" and len(e.args) == 2:
+                (a, ta), (b2, tb2) = self.expr(e.args[0], env, binds), self.expr(e.args[1], env, binds)
+                if ta == O("int"):
+                    nm = self.fresh(); binds.append((nm, f"(PyRt.needInt {a})", "int")); a, ta = nm, "int"
+                if (ta, tb2) != ("int", "str"):
+                    raise Unsupported("Gap(length, type) arguments")
+                return f"({{ length := {a}, gapType := {b2} }} : Gap)", "gap"
+            if n == "Fragment" and len(e.args) == 4 and "nextOid" in env:
+                xs = [self.expr(a, env, binds) for a in e.args]
+                want = ["str", "int", "int", "int"]
+                args = []
+                for (t, ty), w in zip(xs, want):
+                    if ty == O(w):
+                        nm = self.fresh(); binds.append((nm, f"(PyRt.{'needInt' if w == 'int' else 'needObj'} {t})", w)); t, ty = nm, w
+                    args.append(self.coerce(t, ty, w))
+                v = self.fresh()
+                binds.append((v, "(mkFragment nextOid " + " ".join(args) + " [])", "frag"))
+                binds.append(("nextOid", "(nextOid + 1)", "nat", "let"))
+                return v, "frag"
+            if n == "Scaffold" and len(e.args) == 1 and "heap_sc" not in env and "heap_lo" not in env:
+                t, ty = self.expr(e.args[0], env, binds)
+                if ty != "str":
+                    raise Unsupported("Scaffold(name) type")
+                return f"({{ name := {t} }} : Scaffold)", "scaffold"
             if n == "BytesIO" and len(e.args) == 1:
                 t, ty = self.expr(e.args[0], env, binds)
                 if ty != "bytes":
@@ -1039,6 +1102,8 @@ class Kernel:
                 binds.append((nm, f"(dSetDefault {d} {k} {v})", ("raw", f"({lean_ty(td)} × {lean_ty(td[2])})"), "let"))
                 binds.append((mg(root), f"{{ {mg(root)} with {FIELD[(env[root], attr)]} := {nm}.1 }}", env[root], "let"))
                 return f"{nm}.2", td[2]
+            if m == "tell" and not e.args and isinstance(f.value, ast.Name) and f.value.id in self.spec.get("file_lines", {}):
+                return "fh_pos", "int"
             if m == "pop" and len(e.args) == 1:
                 # `xs.pop(i)` used as an expression: the list moves on, the popped element is the value
                 cont, tc = self.expr(f.value, env, binds)
@@ -1079,6 +1144,8 @@ class Kernel:
                 return f"(({b}).map (fun kv => kv.2))", L(tb[2])
             if isinstance(tb, tuple) and tb[0] == "dict" and m == "get" and len(e.args) in (1, 2):
                 k, tk = self.expr(e.args[0], env, binds)
+                if tk == O(tb[1]) and len(e.args) == 1:
+                    return f"(match {k} with | some k => dGet? {b} k | none => none)", O(tb[2])      # no key is None
                 if tk != tb[1]:
                     raise Unsupported("dict key type")
                 if len(e.args) == 1:
@@ -1087,6 +1154,16 @@ class Kernel:
                 if td != tb[2]:
                     raise Unsupported("dict default type")
                 return f"((dGet? {b} {k}).getD {d})", tb[2]
+            if tb == "bytes" and m == "split" and not e.args:
+                return f"(PyRt.bytesSplitWs {b})", L("bytes")
+            if tb == "bytes" and m == "decode" and not e.args:
+                nm = self.fresh()
+                binds.append((nm, f"(bytesToStr {b})", "str"))
+                return nm, "str"
+            if tb == "bytesio" and m == "tell" and not e.args:
+                return f"(Int.ofNat ({b}).pos)", "int"
+            if tb == ("tuple", ["nat", "nat"]) and m in ("start", "end") and not e.args:
+                return f"(Int.ofNat ({b}).{1 if m == 'start' else 2})", "int"
             if tb == "bytes" and m == "translate" and len(e.args) == 1 and isinstance(e.args[0], ast.Name) and e.args[0].id == "IUPAC_COMPLEMENT":
                 # the module-level complement table: the model's `comp` reads the table EXTRACTED from the source (Gen.complementTable, T1)
                 return f"(({b}).map comp)", "bytes"
@@ -1177,8 +1254,19 @@ class Kernel:
         s, rest = stmts[0], list(stmts[1:])
         if isinstance(s, ast.Expr) and isinstance(s.value, ast.Constant) and isinstance(s.value.value, str):
             return self.block(rest, env, loop)
-        if isinstance(s, ast.Pass):
+        if isinstance(s, (ast.Pass, ast.Nonlocal)):
             return self.block(rest, env, loop)
+        if isinstance(s, ast.FunctionDef) and s.name in self.spec.get("inline_closures", []):
+            return self.block(rest, env, loop)        # a local helper: its body is inlined at every call (see `inline_closures`)
+        if isinstance(s, ast.With) and len(s.items) == 1 and isinstance(s.items[0].optional_vars, ast.Name) \
+                and s.items[0].optional_vars.id in self.spec.get("file_lines", {}):
+            return self.block(list(s.body) + rest, env, loop)      # `with file.open("rb") as fh:` — fh is the declared sequence of lines
+        if isinstance(s, ast.Expr) and isinstance(s.value, ast.Call) and isinstance(s.value.func, ast.Name) and s.value.func.id in self.spec.get("inline_closures", []) \
+                and not s.value.args and not s.value.keywords:
+            fn = find_def(ast.parse((SRC / self.spec["file"]).read_text()), self.spec["qual"] + "." + s.value.func.id)
+            if fn is None or fn.args.args or any(isinstance(n, (ast.Return, ast.Yield)) for st in fn.body for n in ast.walk(st)):
+                raise Unsupported("closure to inline")
+            return self.block(list(fn.body) + rest, env, loop)
         if any(ast.unparse(s).startswith(pfx) for pfx in self.spec.get("skip_statements", [])):
             return self.block(rest, env, loop)        # statements the kernel's spec lists as not translated (floats / reporting), see IMP_KERNELS
         # message for the raise that follows
@@ -1191,6 +1279,9 @@ class Kernel:
             if name not in ERR:
                 raise Unsupported("raise of an unsupported exception")
             return [f".error .{ERR[name]}"]
+        if isinstance(s, ast.Return) and isinstance(s.value, ast.Tuple) and all(isinstance(x, ast.Name) for x in s.value.elts) \
+                and all(x.id in self.spec.get("assembly_objects", []) or x.id in self.spec.get("extra_roots", {}) for x in s.value.elts):
+            return self.ret(env, loop, "()")              # the returned objects are the declared roots
         if isinstance(s, ast.Return) and isinstance(s.value, ast.Name) and s.value.id in self.spec.get("assembly_objects", []):
             return self.ret(env, loop, "()")              # `return asm`: the roots ARE the assembly
         if isinstance(s, ast.Return):
@@ -1366,7 +1457,12 @@ class Kernel:
             if isinstance(s.value, ast.Call) and isinstance(s.value.func, ast.Attribute) and s.value.func.attr == "read" \
                     and self.type_of_root(s.value.func.value, env) == "bytesio":
                 return self.read_stmt(tg.id, s.value, rest, env, loop)
-            t, ty = self.expr(s.value, env, binds)
+            decl = self.spec.get("locals", {}).get(tg.id)
+            if isinstance(decl, tuple) and decl[0] == "tuple" and isinstance(s.value, ast.Tuple) and len(s.value.elts) == len(decl[1]):
+                xs = [self.expr(x, env, binds) for x in s.value.elts]
+                t, ty = "(" + ", ".join(self.coerce(a, b, w) for (a, b), w in zip(xs, decl[1])) + ")", decl
+            else:
+                t, ty = self.expr(s.value, env, binds)
             l, env2 = self.bind_var(tg.id, t, ty, env)
             return self.with_binds(binds, [l] + self.block(rest, env2, loop))
         if isinstance(tg, ast.Attribute) and isinstance(tg.value, ast.Name) and env.get(tg.value.id) == "lref" and "heap_lo" in env \
@@ -1404,6 +1500,16 @@ class Kernel:
             if tk != td[1] or tv != td[2]:
                 raise Unsupported("dict item assignment types")
             return self.with_binds(binds, [self.let(d, td, f"dSet {d} {k} {v}")] + self.block(rest, env, loop))
+        if isinstance(tg, ast.Subscript) and isinstance(tg.value, ast.Name) and isinstance(env.get(tg.value.id), tuple) and env[tg.value.id][0] == "dict":
+            d = tg.value.id
+            td = env[d]
+            k, tk = self.expr(tg.slice, env, binds)
+            if tk == O(td[1]):
+                nm = self.fresh(); binds.append((nm, f"(PyRt.needObj {k})", td[1])); k, tk = nm, td[1]     # (a None key cannot arise: see the tie)
+            v, tv = self.expr(s.value, env, binds)
+            if tk != td[1] or tv != td[2]:
+                raise Unsupported("dict item assignment types")
+            return self.with_binds(binds, [self.let(d, td, f"dSet {mg(d)} {k} {v}")] + self.block(rest, env, loop))
         if isinstance(tg, ast.Subscript) and dotted(tg.value) in self.spec.get("dict_roots", {}):
             d = dotted(tg.value).replace(".", "_")
             td = env[d]
@@ -1430,9 +1536,29 @@ class Kernel:
             return self.with_binds(binds, lines + self.block(rest, env2, loop))
         raise Unsupported("assignment target")
 
+    def tuple_arg(self, node, want, env, binds):
+        """an ast.Tuple written where a record-like tuple type is expected: translated component by component"""
+        xs = [self.expr(x, env, binds) for x in node.elts]
+        return "(" + ", ".join(t for t, _ in xs) + ")", ("tuple", [ty for _, ty in xs])
+
     def coerce_elem(self, v, tv, want):
         if tv == want:
             return v
+        if isinstance(want, tuple) and want[0] == "tuple" and isinstance(tv, tuple) and tv[0] == "tuple" and len(tv[1]) == len(want[1]) \
+                and all(a == b or a == O(b) for a, b in zip(tv[1], want[1])) and self.cur_binds is not None:
+            # a tuple with components that may be None where definite ints are declared: TypeError on None (the tie proves it unreachable)
+            nm = self.fresh("tp")
+            self.cur_binds.append((nm, v, ("raw", lean_ty(tv)), "let"))
+            parts = []
+            for k, (a, b) in enumerate(zip(tv[1], want[1])):
+                proj = nm + "".join(".2" for _ in range(k)) + (".1" if k < len(tv[1]) - 1 else "")
+                if a == O(b):
+                    x = self.fresh()
+                    self.cur_binds.append((x, f"(PyRt.needInt {proj})", b))
+                    parts.append(x)
+                else:
+                    parts.append(proj)
+            return "(" + ", ".join(parts) + ")"
         if want == "row" and tv == "frag":
             return f"(Row.frag {v})"
         if want == "row" and tv == "gap":
@@ -1494,6 +1620,7 @@ class Kernel:
     def call_stmt(self, c, rest, env, loop):
         f = c.func
         binds = []
+        self.cur_binds = binds
         path = dotted(f)
         if path in self.spec.get("skip_calls", []):
             return self.block(rest, env, loop)
@@ -1641,6 +1768,15 @@ class Kernel:
                 return self.with_binds(binds, lines + self.block(rest, env2, loop))
             if m in ("append", "extend") and len(c.args) == 1:
                 cont, tc = self.expr(f.value, env, binds)
+                if isinstance(tc, tuple) and tc[0] == "opt" and isinstance(tc[1], tuple) and tc[1][0] == "list" and isinstance(f.value, ast.Name) and m == "append":
+                    nm = self.fresh()
+                    binds.append((nm, f"(PyRt.needObj {cont})", tc[1]))      # None.append: AttributeError
+                    if isinstance(c.args[0], ast.Tuple) and isinstance(tc[1][1], tuple) and tc[1][1][0] == "tuple":
+                        v, tv = self.tuple_arg(c.args[0], tc[1][1], env, binds)
+                    else:
+                        v, tv = self.expr(c.args[0], env, binds)
+                    new = f"(some ({nm} ++ [{self.coerce_elem(v, tv, tc[1][1])}]))"
+                    return self.with_binds(binds, [self.let(f.value.id, tc, new)] + self.block(rest, env, loop))
                 if not (isinstance(tc, tuple) and tc[0] == "list"):
                     raise Unsupported(f"{m} on a non-list")
                 v, tv = self.expr(c.args[0], env, binds)
@@ -1652,7 +1788,7 @@ class Kernel:
                     new = f"({cont} ++ {v})"
                 lines, env2 = self.store_back(f.value, new, tc, env)
                 return self.with_binds(binds, lines + self.block(rest, env2, loop))
-            if m == "write" and len(c.args) == 1:
+            if m == "write" and len(c.args) == 1 and self.type_of_root(f.value, env) != "bytesio":
                 p = dotted(f.value)
                 if isinstance(f.value, ast.Name):
                     p = self.aliases.get(f.value.id, f.value.id)
@@ -1666,6 +1802,16 @@ class Kernel:
                 if tv != want:
                     raise Unsupported(f"write of {tv} to a {env[sink]}")
                 return self.with_binds(binds, [self.let(sink, env[sink], f"{mg(sink)} ++ {v}")] + self.block(rest, env, loop))
+            if m == "write" and len(c.args) == 1 and self.type_of_root(f.value, env) == "bytesio":
+                obj = self.aliases.get(f.value.id, f.value.id)
+                v, tv = self.expr(c.args[0], env, binds)
+                if tv != "bytes":
+                    raise Unsupported("BytesIO.write of a non-bytes value")
+                return self.with_binds(binds, [self.let(obj, "bytesio", f"PyRt.BytesIO.write {mg(obj)} {v}")] + self.block(rest, env, loop))
+            if m == "truncate" and len(c.args) == 1 and self.type_of_root(f.value, env) == "bytesio":
+                obj = self.aliases.get(f.value.id, f.value.id)
+                n, tn = self.expr(c.args[0], env, binds)
+                return self.with_binds(binds, [self.let(obj, "bytesio", f"PyRt.BytesIO.truncate {mg(obj)} {n}")] + self.block(rest, env, loop))
             if m == "seek" and len(c.args) == 1 and self.type_of_root(f.value, env) == "bytesio":
                 obj = self.aliases.get(f.value.id, f.value.id)
                 n, tn = self.expr(c.args[0], env, binds)
@@ -1747,6 +1893,15 @@ class Kernel:
             a = self.block(list(none_body) + ([] if always_exits(none_body) else rest), env, loop)
             b = self.block(list(some_body) + ([] if (some_body and always_exits(some_body)) else rest), env_some, loop)
             return [f"match {mg(x)} with", "| none =>"] + ind(a) + [f"| some {mg(x)} =>"] + ind(b)
+        if isinstance(test, ast.Name) and env.get(test.id) == O("str"):
+            # `if x:` for a str-or-None: None and "" are false; inside the true branch x is a definite str
+            x = test.id
+            env_t = dict(env)
+            env_t[x] = "str"
+            a_t = self.block(list(s.body) + ([] if always_exits(s.body) else rest), env_t, loop)
+            b_some = self.block(list(s.orelse) + ([] if (s.orelse and always_exits(s.orelse)) else rest), env_t, loop)
+            b_none = self.block(list(s.orelse) + ([] if (s.orelse and always_exits(s.orelse)) else rest), env, loop)
+            return [f"match {mg(x)} with", "| none =>"] + ind(b_none) + [f"| some {mg(x)} =>", f"  if (!({mg(x)}).isEmpty) = true then"] + ind(ind(a_t)) + ["  else"] + ind(ind(b_some))
         def opt_attr(n):
             p = dotted(n) if isinstance(n, ast.Attribute) else None
             ty = self.spec.get("attr_params", {}).get(p) if p else None
@@ -1871,7 +2026,15 @@ class Kernel:
                 state.append((n, env[n]))
         # variables first assigned inside the loop and used afterwards are not supported (Lean reports the unbound name)
         log0 = len(self.let_log)
-        body = self.block(list(s.body), env_body, state)
+        pre_body = []
+        if is_for and getattr(self, "file_iter", None) and isinstance(s.iter, ast.Name) and s.iter.id == self.file_iter[0]:
+            # the file position moves past the line before the body runs
+            if "fh_pos" not in env:
+                raise Unsupported("file iteration without the position variable")
+            if "fh_pos" not in [n for n, _ in state]:
+                state.append(("fh_pos", "int"))
+            pre_body = [self.let("fh_pos", "int", f"(fh_pos + (Int.ofNat ({mg(self.file_iter[1])}).length))")]
+        body = pre_body + self.block(list(s.body), env_body, state)
         self.check_carried(log0, env, [n for n, _ in state] + (self.for_targets(s) if is_for else []), "the loop state")
         res = self.fresh("lp")
         rho = "_"
@@ -1923,6 +2086,14 @@ class Kernel:
             for x, tx in zip(s.target.elts, ty[1][1]):
                 env_body[x.id] = tx
             return t, ty, "((" + ", ".join(mg(x.id) for x in s.target.elts) + ") : " + " × ".join(lean_ty(tx) for tx in ty[1][1]) + ")"
+        if isinstance(s.target, ast.Name) and isinstance(it, ast.Name) and it.id in self.spec.get("file_lines", {}):
+            # iterating a binary file: the declared list of its lines (bytes, each with its line ending); `fh.tell()` inside the body is the
+            # offset just after the current line
+            prm = self.spec["file_lines"][it.id]
+            self.param(prm, L("bytes"))
+            env_body[s.target.id] = "bytes"
+            self.file_iter = (it.id, s.target.id)
+            return prm, L("bytes"), f"({mg(s.target.id)} : List Nat)"
         if isinstance(s.target, ast.Name):
             t, ty = self.expr(it, env, binds)
             if isinstance(ty, tuple) and ty[0] == "opt" and isinstance(ty[1], tuple) and ty[1][0] in ("list", "set"):
@@ -2060,6 +2231,31 @@ def translate(spec):
                 env[p] = ty
                 k.param(mg(p), ty)
         body = list(fn.body)
+        if spec.get("inline_closures"):
+            # local helper functions (closures over the enclosing variables, `nonlocal`) are expanded at every call BEFORE translation, so
+            # that the scans for assigned variables and early exits see their bodies
+            import copy
+            defs = {n.name: n for n in fn.body if isinstance(n, ast.FunctionDef) and n.name in spec["inline_closures"]}
+            for d in defs.values():
+                if d.args.args or any(isinstance(x, (ast.Return, ast.Yield)) for st in d.body for x in ast.walk(st)):
+                    raise Unsupported("closure to inline")
+
+            def expand(stmts, depth=0):
+                out = []
+                for st in stmts:
+                    if isinstance(st, ast.Expr) and isinstance(st.value, ast.Call) and isinstance(st.value.func, ast.Name) and st.value.func.id in defs \
+                            and not st.value.args and not st.value.keywords:
+                        if depth > 4:
+                            raise Unsupported("recursive closure")
+                        out += expand([x for x in copy.deepcopy(defs[st.value.func.id].body)
+                                       if not (isinstance(x, ast.Expr) and isinstance(x.value, ast.Constant))], depth + 1)
+                        continue
+                    for fld in ("body", "orelse"):
+                        if hasattr(st, fld) and isinstance(getattr(st, fld), list) and not isinstance(st, ast.FunctionDef):
+                            setattr(st, fld, expand(getattr(st, fld), depth))
+                    out.append(st)
+                return out
+            body = expand([x for x in body if not (isinstance(x, ast.FunctionDef) and x.name in defs)])
         lines = k.block(body, env, None)
     except Unsupported as e:
         return f"/- {rel}::{qual}: outside the translated subset: {e}\n{doc}\n-/\ndef {lean_name}_UNSUPPORTED : Unit := ()\n"
@@ -2068,7 +2264,7 @@ def translate(spec):
     if k.ret_ty != "unit":
         parts.append(lean_ty(k.ret_ty))
     rty = "Unit" if not parts else " × ".join(parts)
-    sink_inits = [f"  let {mg(n)} : {lean_ty(t)} := []" for n, t in k.roots if t in ("sink_str", "sink_bytes") or n == "yielded_" or n == "heap_sc" or n in ("heap_lo", "added_lo") or n in spec.get("extra_roots", {}) or n in [p.replace(".", "_") for p in spec.get("init_empty", [])]]
+    sink_inits = [f"  let {mg(n)} : {lean_ty(t)} := {'0' if t == 'int' else '[]'}" for n, t in k.roots if t in ("sink_str", "sink_bytes") or n == "yielded_" or n == "heap_sc" or n in ("heap_lo", "added_lo") or n in spec.get("extra_roots", {}) or n in [p.replace(".", "_") for p in spec.get("init_empty", [])]]
     # parameter order = the order of the kernel's declaration (params, attr_params, opaque, then newOid): independent of the order of use
     order = ["store", "nextOid", "heap_ff"] + [p.replace(".", "_") for p in spec.get("dict_roots", {})] + [mg(n) for n in spec.get("params", {})] + [p.replace(".", "_") for p in spec.get("attr_params", {})] \
         + [p.replace(".", "_") for p in spec.get("opaque", {})] + ["newOid"]
@@ -2223,6 +2419,17 @@ IMP_KERNELS_11 = [
          }),
 ]
 
+IMP_KERNELS_12 = [
+    dict(file="fasta/index.py", qual="index_fasta_file", lean="index_fasta_file_imp", oid_counter=True, assembly_objects=["asm"],
+         inline_closures=["store_info", "process_seq_buffer"], file_lines={"fh": "lines"},
+         params={"buffer_size": "int"},
+         locals={"name": O("str"), "seq_length": O("int"), "file_offset": O("int"), "residues_per_line": O("int"), "region_start": O("int"),
+                 "region_end": O("int"), "seq_regions": O(L(("tuple", ["int", "int"]))), "line_end_bytes": O("int"),
+                 "idx_dict": ("dict", "str", "fastainfo"), "prev": ("tuple", ["int", "int"])},
+         extra_roots={"idx_dict": ("dict", "str", "fastainfo"), "fh_pos": "int"},
+         dict_roots={"asm.scaffolds": L("scaffold")}, init_empty=["asm.scaffolds"]),
+]
+
 IMP_KERNELS = [
     dict(file="assembly/indexed_assembly.py", qual="IndexedAssembly.find_overlaps", lean="IndexedAssembly_find_overlaps",
          params={"bait": "frag"}, returns=O("ovres"), locals={"ovr": O("int")},
@@ -2254,7 +2461,7 @@ IMP_KERNELS = [
 def main():
     parts = ["/- GENERATED by harness/translate_imp.py from /repo/src — do not edit -/", "import AgpTpf.Model.PyRt", "import AgpTpf.Model.PyRtHeap", "import AgpTpf.Model.Lookup",
              "import AgpTpf.Model.Fasta", "import AgpTpf.Model.Text", "set_option linter.unusedVariables false", "namespace AgpTpf.Gen.Imp", "open AgpTpf", ""]
-    for spec in IMP_KERNELS + IMP_KERNELS_2 + IMP_KERNELS_3 + IMP_KERNELS_4 + IMP_KERNELS_5 + IMP_KERNELS_6 + IMP_KERNELS_7 + IMP_KERNELS_8 + IMP_KERNELS_9 + IMP_KERNELS_10 + IMP_KERNELS_11:
+    for spec in IMP_KERNELS + IMP_KERNELS_2 + IMP_KERNELS_3 + IMP_KERNELS_4 + IMP_KERNELS_5 + IMP_KERNELS_6 + IMP_KERNELS_7 + IMP_KERNELS_8 + IMP_KERNELS_9 + IMP_KERNELS_10 + IMP_KERNELS_11 + IMP_KERNELS_12:
         parts.append(translate(spec))
     parts.append("end AgpTpf.Gen.Imp\n")
     txt = "\n".join(parts)
